@@ -42,7 +42,8 @@ def check(repo, rep):
                 continue     # the zero-iteration variant of the same path
             modes['callback'] += 1
             calls = [e for e in l.effects if e[0] == 'call' and e[1][0] == 'call' and e[1][1] == ('p', 'callback')]
-            ok = bool(loops) and len(calls) == 1 and calls[0][1][2] == (('star', ('elem', g)),) and not calls[0][1][3]
+            el = ('elem', g)
+            ok = bool(loops) and len(calls) == 1 and not calls[0][1][3] and calls[0][1][2] in ((('star', el),), tuple(('sub', el, ('c', i)) for i in range(3)))
             conds_in_loop = [c for c in l.conds if any(x == ('elem', g) for x in walk(c[0]))]
             rep.ob('callback mode: callback(*token) for every token of the generator, unfiltered', ok and not conds_in_loop, where, 'StreamTokenizer.tokenize:callback-mode',
                    'callback calls on the path: %s ; conditions on the token: %s' % ([show(c[1])[:80] for c in calls], [show(c[0])[:60] for c in conds_in_loop]),
